@@ -29,6 +29,9 @@ pub struct Overrides {
     pub snapshot_level: u8,
     /// Every probe start jitter not forced by the scenario takes this value.
     pub jitter_const: Option<u64>,
+    /// Every datagram a daemon sends takes this many milliseconds of virtual time (the clock moves on inside the
+    /// loop iteration, as it does on a real machine).
+    pub send_cost_ms: Option<u64>,
 }
 
 thread_local! {
@@ -285,6 +288,9 @@ pub enum ApiResult {
 #[derive(Clone, Debug)]
 pub struct GateInfo {
     pub wakeup: Option<u64>,
+    /// The daemon's own `now` at the gate and the time-out it was about to hand to poll (None: none).
+    pub gate_now: u64,
+    pub poll_timeout_ms: Option<u64>,
     pub queued: usize,
     /// Work observed in the iteration that just ended.
     pub egress: usize,
@@ -670,6 +676,12 @@ impl World {
             let mut g = ctx.lock();
             g.snapshot_level = self.snapshot_level;
             g.jitter_const = OVERRIDES.with(|c| c.get()).and_then(|o| o.jitter_const);
+            if let Some(cost) = OVERRIDES.with(|c| c.get()).and_then(|o| o.send_cost_ms) {
+                let clock = self.clock.clone();
+                g.on_egress = Some(Box::new(move |_| {
+                    clock.fetch_add(cost, Ordering::SeqCst);
+                }));
+            }
             setup(&mut g);
             if g.jitter_const.is_some() {
                 // a forced queue would be handed out in interface-visiting order
@@ -735,7 +747,7 @@ impl World {
     /// Records what the iteration that just ended produced.
     fn collect(&mut self, h: usize, cmds_before: usize, events_before: usize) {
         let ctx = self.hosts[h].ctx.clone();
-        let (new_egress, wakeup, queued, snapshot, ended, consumed) = {
+        let (new_egress, wakeup, gate_now, poll_timeout_ms, queued, snapshot, ended, consumed) = {
             let mut g = ctx.lock();
             let seen = self.hosts[h].egress_seen;
             let new: Vec<hooks::Egress> = g.egress[seen..].to_vec();
@@ -749,6 +761,8 @@ impl World {
             (
                 new,
                 g.wakeup,
+                g.gate_now,
+                g.poll_timeout_ms,
                 g.queued,
                 g.snapshot.take(),
                 g.ended.clone(),
@@ -771,6 +785,8 @@ impl World {
                 h,
                 Ev::Gate(GateInfo {
                     wakeup,
+                    gate_now,
+                    poll_timeout_ms,
                     queued,
                     egress: n_egress,
                     events,
